@@ -1,5 +1,7 @@
 package model
 
+import "reflect"
+
 // Site is one struct-valued position of a tree: the root, a container or a keyed-list entry.
 type Site struct {
 	N     *Node
@@ -104,3 +106,6 @@ func (n *Node) DropEmptyContainers() *Node {
 
 // RenderObject renders a node as a generic JSON object value (for embedding into larger documents).
 func RenderObject(n *Node, o JSONOpts) map[string]interface{} { return renderNode(n, o) }
+
+// ObserveKey reads a Go map key (scalar or key struct) of list field f into a key tuple.
+func ObserveKey(f *FieldInfo, kv reflect.Value) []Val { return observeKey(f, kv) }
